@@ -241,7 +241,7 @@ def read_tsv(path):
     # Find whether the delimiter is tab or comma.
     with path.open('r') as f:
         delimiter = '\t' if '\t' in f.readline() else ','
-    with path.open('r') as f:
+    with path.open('r', newline='') as f:
         reader = csv.reader(f, delimiter=delimiter)
         # Skip the header.
         field_names = list(next(reader))
@@ -309,7 +309,7 @@ def _read_tsv_simple(path):
     # Find whether the delimiter is tab or comma.
     with path.open('r') as f:
         delimiter = '\t' if '\t' in f.readline() else ','
-    with path.open('r') as f:
+    with path.open('r', newline='') as f:
         reader = csv.reader(f, delimiter=delimiter)
         # Skip the header.
         _, field_name = next(reader)
